@@ -55,6 +55,25 @@ def base_local(b, l, depth=0, trace=None):
     return l
 
 
+def _satisfiable(f):
+    """is the formula satisfiable (truth table over its subjects; formulas here are small)"""
+    import itertools
+    from . import guards
+    subs = {}
+    guards._subjects(f, subs)
+    keys = sorted(subs)
+    doms = [sorted(subs[k]) + ["\0other"] if k[0] == "e" else [True, False] for k in keys]
+    n = 1
+    for d in doms:
+        n *= len(d)
+    if n > 200000:
+        return True
+    for combo in itertools.product(*doms):
+        if guards._eval(f, dict(zip(keys, combo))):
+            return True
+    return False
+
+
 def r08_listeq(chk, prog, rule="R08-listeq"):
     """the generated PartialEq impls (R08-eq) compare sub-element lists with ItemList's hand-written `==`: that one is equality of the
     whole item sequences -- the standard Vec/slice equality on both `items` fields, or an explicit equal-length test next to an
@@ -328,6 +347,37 @@ def run(chk):
             r, pth = refs.term_path(ev[1])
             if r == ("param", 1) and pth and any(refs.term_path(v)[0] == ("param", 2) for v in ev[2]):
                 fills.add(pth)
+    from . import guards
+    for ev in mf.S.events:
+        if ev[0] != "write":
+            continue
+        r, pth = refs.term_path(ev[1])
+        if not (r == ("param", 1) and pth in unions and any(refs.term_path(v)[0] == ("param", 2) for v in ev[2])):
+            continue
+        # position of this write inside its own function, and the condition under which it is reached there
+        fb = prog.bodies.get(ev[3])
+        Sl = mf.A.summary(ev[3]) if fb is not None else None
+        blocks = [x[5] for x in (Sl.events if Sl else []) if x[0] == "write" and x[3] == ev[3] and x[4] == ev[4]]
+        dest = "arg1." + ".".join(seg.split(".")[-1] for seg in pth.split("/"))
+        for blk in blocks[:1]:
+            F = guards.reach_formula(fb, Sl, blk)
+            # the destination's own list must be known to be absent: discr(<dest>) == Some is implied false
+            okd = False
+            def walk(f, acc):
+                if isinstance(f, list) and f and f[0] in ("and", "or"):
+                    for x in f[1:]:
+                        walk(x, acc)
+                elif isinstance(f, list) and f and f[0] == "e":
+                    acc.append(f)
+            atoms = []
+            walk(F, atoms)
+            tests = [a for a in atoms if a[1] == "discr(%s)" % dest and a[2] == ["Some"]]
+            if tests:
+                # evaluate: is there a satisfying assignment of F in which dest is Some?
+                G = ["and", F, ["e", "discr(%s)" % dest, ["Some"], True]]
+                okd = not _satisfiable(G)
+            if not okd:
+                chk.add(Finding("R08-union", "R08-union::overwrite::" + pth, "%s is assigned from the merged-in element also where the destination already has such a list: A's members are replaced (or removed, when the merged-in element has none)" % pth, fb.where(ev[4]) if fb else ""))
     for parent, ev in sorted(unions.items()):
         nun += 1
         if parent not in fills:
